@@ -123,6 +123,9 @@ class RealRays(BaseRays):
         self.M = ty
         self.N = tz
 
+        # total internal reflection: nothing is transmitted
+        self.i = np.where(np.isnan(root), 0.0, self.i)
+
     def reflect(self, nx, ny, nz):
         """
         Reflects the rays on the surface.
